@@ -171,13 +171,17 @@ def guarded(f):
         signal.signal(signal.SIGALRM, old)
 
 
-def run_text(text, ret):
-    """aw_query.query2.query on the real code, builtins symbolic"""
+def run_text(text, ret, kind_only=False):
+    """aw_query.query2.query on the real code, builtins symbolic. `kind_only`: report a value as
+    ["value"] without walking it (results nested hundreds of levels deep cannot be canonicalised, pickled or
+    written as JSON by the harness's own recursive code)"""
     import aw_query.query2 as q2
 
     install_stubs()
     Mode.ret = ret or {}
     Mode.real = False
+    if kind_only:
+        return guarded(lambda: (q2.query("n", text, T0, T1, DS), ["value"])[1])
     return guarded(lambda: canon(q2.query("n", text, T0, T1, DS)))
 
 
@@ -421,10 +425,17 @@ def line_render(prog, seed, table):
     return f"q render {seed} {len(table)} " + " ".join(hx(w) for w in table) + " " + p_prog(prog)
 
 
+def _r_int(t: Toks):
+    """an integer of the model's answer; one that this interpreter's int() refuses to read (more than 4300
+    digits) is kept as text, so that it simply differs from whatever the real code produced"""
+    tok = t.tok()
+    return int(tok) if len(tok) <= MAX_INT_DIGITS else "big:" + tok
+
+
 def r_val(t: Toks):
     k = t.tok()
     if k == "i":
-        return ["i", t.int()]
+        return ["i", _r_int(t)]
     if k == "s":
         return ["s", t.str()]
     if k == "b":
@@ -445,7 +456,7 @@ def r_val(t: Toks):
 def r_tok(t: Toks):
     k = t.tok()
     if k == "int":
-        return ["int", t.int()]
+        return ["int", _r_int(t)]
     if k == "str":
         return ["str", t.str()]
     if k == "var":
@@ -632,6 +643,8 @@ class RefParser:
             j = self.i
             while self.peek() != "" and "0" <= self.peek() <= "9":
                 self.i += 1
+            if self.i - j > MAX_INT_DIGITS:
+                raise NotWellFormed("integer literal longer than the runtime's int() limit")
             return ["i", int(self.s[j : self.i])]
         if c != "" and c in "\"'":
             return ["s", self.string()]
@@ -683,9 +696,25 @@ class RefParser:
         return out
 
 
+MAX_INT_DIGITS = 4300  # CPython's default sys.get_int_max_str_digits(): int() of a longer digit string raises
+MAX_DEPTH = 150  # bracket nesting beyond which the interpreter's recursion limit may be hit (open finding of C17)
+
+
+def bracket_depth(text):
+    """deepest nesting of ( [ { in the text (quotes are not looked at: an upper bound)"""
+    d = m = 0
+    for c in text:
+        if c in "([{":
+            d += 1
+            m = max(m, d)
+        elif c in ")]}":
+            d = max(0, d - 1)
+    return m
+
+
 def ref_parse(text):
     """the program a well-formed ASCII text denotes, or None"""
-    if not is_ascii(text):
+    if not is_ascii(text) or bracket_depth(text) > MAX_DEPTH:
         return None
     try:
         return RefParser(text).prog()
